@@ -131,7 +131,9 @@ def step (rows : List Row) (toks : List String) : List Row × String :=
   match parseOp toks with
   | some (.row r) => (rows ++ [r], "ok")
   | some (.filter a b) => (rows, showList ((readFilter blockSize a b rows).map showSeries) ";")
-  | some (.group q) => (rows, showList ((readGroup blockSize q rows).map (showGroup q.by_)) "#")
+  | some (.group q) =>
+    let ans := showList ((readGroup blockSize q rows).map (showGroup q.by_)) "#"
+    (rows, if actualCollision q rows then "* " ++ ans else ans)
   | none => (rows, "bad-op")
 
 /-! parsing the implementation's answers -/
@@ -171,6 +173,33 @@ def parseGroupObs (s : String) : Option Spec.C21.GroupObs :=
 def dropOk (s : String) : Option String :=
   if s = "ok -" then some "" else if s.startsWith "ok " then some (String.ofList (s.toList.drop 3)) else none
 
+/-- bytes of a hex string -/
+def hexPairs : List Char → List (Char × Char)
+  | a :: b :: r => (a, b) :: hexPairs r
+  | _ => []
+
+/-- a tag value that can make two different group-key tuples share one sort key in
+    groupBySort: it contains a NUL byte (the separator, also NilSortLo), or is exactly
+    NilSortHi (0xff) while nil sorts high -/
+def collidingValue (nilLo : Bool) (v : String) : Bool :=
+  (hexPairs v.toList).contains ('0', '0') || (!nilLo && v == "ff")
+
+def collisionProne (q : GroupReq) (rows : List Row) : Bool :=
+  q.by_ && rows.any fun r => q.keys.any fun k =>
+    match tagGet r.tags k with
+    | some v => collidingValue q.nilLo v
+    | none => false
+
+/-- two series with data whose group-key tuples differ share one sort key: which of them
+    leads the merged group (and so the reported PartitionKeyVals) depends on the internal
+    order of `sort.Slice` (not stable) — not predicted by the model -/
+def actualCollision (q : GroupReq) (rows : List Row) : Bool :=
+  q.by_ &&
+  let live := rows.filter fun r => q.allTime || hasPoints blockSize q.start q.stop r
+  live.any fun a => live.any fun b =>
+    sortKey q.keys q.nilLo a.tags == sortKey q.keys q.nilLo b.tags &&
+      Spec.C21.tuple q.keys a.tags != Spec.C21.tuple q.keys b.tags
+
 structure OState where
   rows : List Row := []
   v : Verdict := Verdict.pass false
@@ -201,11 +230,12 @@ def oracle1 (st : OState) (toks : List String) (ans : String) : OState :=
     let ok := match obs with
       | some o => Spec.C21.holdsGroup q st.rows o
       | none => false
-    let tags := [if q.by_ then "group-by" else "group-none"] ++ (if q.nilLo then ["nil-lo"] else []) ++
+    let tags := [if q.by_ then "group-by" else "group-none"] ++ (if collisionProne q st.rows then ["odd-key-values"] else []) ++ (if q.nilLo then ["nil-lo"] else []) ++
       (if q.allTime then ["all-time"] else []) ++
       (if (obs.getD []).length > 1 then ["groups>1"] else [])
     let nt : Bool := !st.rows.isEmpty
-    let why : String := "group-read-differs:by=" ++ boolStr q.by_ ++ "_keys=" ++ joinComma q.keys ++ "_nilLo=" ++
+    let sig : String := if collisionProne q st.rows then "group-sortkey-collision" else "group-read-differs"
+    let why : String := sig ++ ":by=" ++ boolStr q.by_ ++ "_keys=" ++ joinComma q.keys ++ "_nilLo=" ++
       boolStr q.nilLo ++ "_start=" ++ toString q.start ++ "_stop=" ++ toString q.stop ++ "_got=" ++
       (String.ofList (ans.toList.take 80)).replace " " "_"
     let vd : Verdict := { ok := ok, nontrivial := nt, tags := tags, reason := if ok then "" else why }
